@@ -17,6 +17,10 @@
 #include <mutex>
 #include <thread>
 
+#include <netinet/in.h>
+#include <set>
+#include <sys/socket.h>
+
 #include "actors.h"
 #include "msggen.h"
 #include "scenario.h"
@@ -39,11 +43,15 @@ Json gen(sim::Rng& rng, int tier)
     Json ji = Json::array();
     for (int i = 0; i < issuers; ++i) ji.push(Json::array());
     u64 tag = 100000 + rng.below(800000);
+    // swarm: in a quarter of the runs the server closes most connections after the response and nothing
+    // times out, so that connections are torn down and re-established while requests are handed over
+    bool closing_server = rng.chance(0.25);
     for (int k = 0; k < total; ++k) {
         Json q = Json::object();
         q["tag"] = static_cast<long long>(++tag);
         int b = static_cast<int>(rng.below(20));
         std::string beh = b < 8 ? "immediate" : b < 11 ? "delayed" : b < 13 ? "dribble" : b < 15 ? "chunked" : b < 17 ? "close-after" : b < 18 ? "never" : "late";
+        if (closing_server) beh = b < 12 ? "close-after" : b < 17 ? "immediate" : "delayed";
         q["behaviour"] = beh;
         long timeout = 0;
         if (beh == "never" || beh == "late") timeout = static_cast<long>(200 + rng.below(1500)); // these need a time-out to end
@@ -59,6 +67,9 @@ Json gen(sim::Rng& rng, int tier)
     p["issuers"] = ji;
     p["latency_us"] = static_cast<int>(5 + rng.below(500));
     gen_sched(rng, p, 6000, true);
+    // another part of the application keeps connections of its own to the same server and opens one whenever it
+    // likes - in particular right after the client released a descriptor, which then gets the same number
+    if (rng.chance(closing_server ? 0.6 : 0.2)) p["other_connections"] = static_cast<int>(rng.range(1, 4));
     return p;
 }
 
@@ -85,6 +96,7 @@ struct Server {
         actors::HttpReader reader;
         size_t handled = 0;
         bool open = true;
+        bool foreign = false;
         int id = 0;
         struct Out {
             ReqState* rs = nullptr;
@@ -98,6 +110,7 @@ struct Server {
         bool sending = false, pump_scheduled = false;
     };
     std::vector<std::shared_ptr<Conn>> conns;
+    std::set<int> foreign_fds;   // descriptors of the application's other connections (not the client's)
     int established = 0, max_established = 0, accepted = 0;
     int unknown_requests = 0;
 
@@ -112,8 +125,11 @@ struct Server {
         c->reader.requests = true;
         c->id = accepted++;
         conns.push_back(c);
-        established++;
-        max_established = std::max(max_established, established);
+        c->foreign = foreign_fds.count(s->peer_fd()) > 0;
+        if (!c->foreign) {
+            established++;
+            max_established = std::max(max_established, established);
+        }
         std::weak_ptr<Conn> wc = c;
         s->set_callback([this, wc](uint32_t ev) {
             auto c2 = wc.lock();
@@ -124,7 +140,7 @@ struct Server {
     {
         if (!c->open) return;
         c->open = false;
-        established--;
+        if (!c->foreign) established--;
         c->sock->close();
     }
     void on_event(const std::shared_ptr<Conn>& c, uint32_t ev)
@@ -251,6 +267,55 @@ void run(const Json& plan)
     const int max_conn = std::max(1, std::min(8, static_cast<int>(plan.num("max_conn", 1))));
     Http::Experimental::Client client;
     client.init(Http::Experimental::Client::options().threads(std::max(1, std::min(3, static_cast<int>(plan.num("client_threads", 1))))).maxConnectionsPerHost(max_conn));
+
+    // The application's other connections: a thread that opens a connection to the same server as soon as a
+    // descriptor of a connected socket has been released somewhere in the process, and keeps it. It never writes.
+    struct Other {
+        int budget = 0, pending = 0;
+        bool stop = false;
+        std::vector<int> fds;
+    } other;
+    other.budget = std::max(0, std::min(8, static_cast<int>(plan.num("other_connections", 0))));
+    std::thread other_thread;
+    if (other.budget > 0) {
+        simk::set_stream_close_observer([&other](int) {
+            if (other.budget > 0) {
+                other.budget--;
+                other.pending++;
+            }
+        });
+        other_thread = std::thread([&] {
+            sim::set_self_name("app-other");
+            const std::function<bool()> wake = [&other] { return other.pending > 0 || other.stop; };
+            for (;;) {
+                {
+                    sim::IgnoreScope ig;
+                    sim::block_until(wake, -1, "app.other-connection");
+                }
+                bool stop;
+                {
+                    sim::IgnoreScope ig;
+                    stop = other.stop && other.pending == 0;
+                    if (!stop) other.pending--;
+                }
+                if (stop) break;
+                int fd = ::socket(AF_INET, SOCK_STREAM, 0);
+                if (fd < 0) continue;
+                {
+                    sim::IgnoreScope ig;
+                    srv.foreign_fds.insert(fd);
+                    other.fds.push_back(fd);
+                    r.probe("other-connection-opened");
+                }
+                struct sockaddr_in a;
+                memset(&a, 0, sizeof a);
+                a.sin_family = AF_INET;
+                a.sin_port = htons(static_cast<uint16_t>(srv.port));
+                a.sin_addr.s_addr = htonl(INADDR_LOOPBACK);
+                ::connect(fd, reinterpret_cast<struct sockaddr*>(&a), sizeof a);
+            }
+        });
+    }
 
     std::mutex rec_mtx; // the promise continuations run on the client's reactor threads
     std::vector<std::thread> issuers;
@@ -386,11 +451,26 @@ void run(const Json& plan)
         r.violation("C15.connections:more-than-configured", std::to_string(srv.max_established) + " connections were established at once with a limit of " + std::to_string(max_conn) + " per host");
     if (srv.max_established == max_conn && max_conn > 1) r.probe("connection-limit-reached");
     if (srv.accepted > max_conn) r.probe("reconnected");
+    for (auto& a : simk::anomalies())
+        if (a.kind == "send.ebadf" || a.kind == "recv.ebadf") r.probe("syscall-on-closed-descriptor");
     if (srv.unknown_requests) r.violation("C15.wire:unexpected-request", std::to_string(srv.unknown_requests) + " request(s) arrived at the server that the application never issued (or a request was mangled)");
     for (auto& c : srv.conns)
         if (c->reader.broken) r.violation("C15.wire:malformed-request", "the client wrote bytes that are not an HTTP request: " + c->reader.broken_why);
 
+    for (auto& c : srv.conns)
+        if (c->foreign && c->reader.done.size() + (c->reader.broken ? 1 : 0) > 0) r.probe("request-on-a-connection-that-is-not-the-clients");
     } // end of the oracle's ignore scope
+    if (other_thread.joinable()) {
+        {
+            sim::IgnoreScope ig;
+            other.stop = true;
+            other.pending = 0;
+            other.budget = 0;
+        }
+        other_thread.join();
+        for (int fd : other.fds) ::close(fd);
+    }
+    simk::set_stream_close_observer(nullptr);
     client.shutdown();
     simk::ActorSock::unlisten(srv.port);
     for (auto& c : srv.conns) srv.gone(c);
